@@ -330,8 +330,11 @@ func TestGeneratorInvariance(t *testing.T) {
 	}
 	sort.Strings(files)
 	dirs := gennyDirectives(scratch)
-	pbt.Run(t, func(rt *rapid.T) InvCase {
+	gen := func(rt *rapid.T) InvCase {
 		n := rapid.IntRange(1, 6).Draw(rt, "n")
+		if rapid.IntRange(0, 3).Draw(rt, "many") == 0 {
+			n = rapid.IntRange(7, len(files)).Draw(rt, "nmany")
+		}
 		c := InvCase{}
 		perm := rapid.Permutation(files).Draw(rt, "perm")
 		c.Files = perm[:n]
@@ -342,7 +345,8 @@ func TestGeneratorInvariance(t *testing.T) {
 		k := rapid.IntRange(0, 2).Draw(rt, "ngenny")
 		c.Genny = rapid.Permutation(idx).Draw(rt, "gperm")[:k]
 		return c
-	}, func(c InvCase) (r pbt.Result) {
+	}
+	check := func(c InvCase) (r pbt.Result) {
 		invSeq++
 		dir := filepath.Join(filepath.Dir(scratch), fmt.Sprintf("inv%d", invSeq))
 		defer os.RemoveAll(dir)
@@ -399,7 +403,40 @@ func TestGeneratorInvariance(t *testing.T) {
 			}
 		}
 		return
-	})
+	}
+	// the invocations a developer types: the whole tree and each directory as the shell expands a glob (sorted),
+	// the same reversed, and every spec file followed by the next one (each file is once the first of a pair)
+	if sh, _ := pbt.Shard(); sh == 0 && !pbt.ReplayOnly() {
+		rev := func(l []string) []string {
+			o := make([]string, len(l))
+			for i, f := range l {
+				o[len(l)-1-i] = f
+			}
+			return o
+		}
+		groups := [][]string{files, rev(files)}
+		byDir := map[string][]string{}
+		var dnames []string
+		for _, f := range files {
+			d := filepath.Dir(f)
+			if byDir[d] == nil {
+				dnames = append(dnames, d)
+			}
+			byDir[d] = append(byDir[d], f)
+		}
+		for _, d := range dnames {
+			groups = append(groups, byDir[d], rev(byDir[d]))
+		}
+		for i, f := range files {
+			groups = append(groups, []string{f, files[(i+1)%len(files)]})
+		}
+		for _, g := range groups {
+			if !pbt.Direct(t, InvCase{Files: g}, check) {
+				return
+			}
+		}
+	}
+	pbt.Run(t, gen, check)
 }
 
 // --- 3. catalogue and Description() agree with the spec blocks -------------------------------
